@@ -69,6 +69,62 @@ const witnessDottedPkg = `module w45 {
   container c { leaf v { type e; } }
 }`
 
+const witnessEnumCase = `module w46 {
+  namespace "urn:w46"; prefix w;
+  container c { leaf e { type enumeration { enum up; enum UP; } } }
+}`
+
+const witnessNegativeEnum = `module w47 {
+  namespace "urn:w47"; prefix w;
+  container c { leaf e { type enumeration { enum neg { value -5; } enum pos { value 7; } } } }
+}`
+
+const witnessEnumNameDup = `module w48 {
+  namespace "urn:w48"; prefix w;
+  container c { leaf e { type enumeration { enum a-b; enum a_b; } } }
+}`
+
+const witnessJSONName = `module w49 {
+  namespace "urn:w49"; prefix w;
+  container c { leaf a-b { type string; } leaf a_b { type string; } }
+}`
+
+const witnessPkgMsgClash = `module w50 {
+  namespace "urn:w50"; prefix w;
+  container top { container Config { container sub { leaf a { type string; } } } }
+}`
+
+const witnessTypeVsField = `module w51 {
+  namespace "urn:w51"; prefix w;
+  container c { leaf Config { type string; } container config { leaf a { type string; } } }
+}`
+
+const witnessRootList = `module w52 {
+  namespace "urn:w52"; prefix w;
+  list vlan { key "id"; leaf id { type uint16; } leaf name { type string; } }
+}`
+
+const witnessKeyEnumImport = `module w53 {
+  namespace "urn:w53"; prefix w;
+  typedef te { type enumeration { enum X; enum Y; } }
+  container c { list l { key "k"; leaf k { type te; } leaf v { type string; } } }
+}`
+
+const witnessDecimalImport = `module w54 {
+  namespace "urn:w54"; prefix w;
+  container c { leaf u { type union { type string; type decimal64 { fraction-digits 2; } } } }
+}`
+
+const witnessRootPkgA = `module w55a {
+  namespace "urn:w55a"; prefix a;
+  container alpha { container config { leaf x { type string; } } container state { config false; leaf x { type string; } } }
+}`
+
+const witnessRootPkgB = `module w55b {
+  namespace "urn:w55b"; prefix b;
+  container beta { container config { leaf y { type string; } } container state { config false; leaf y { type string; } } }
+}`
+
 var c28WitnessOnce sync.Once
 
 // registerC28Witnesses replays the fixed minimal input of every known C28 finding against the
@@ -97,6 +153,30 @@ func registerC28Witnesses(rec *ev.Rec, t *testing.T) {
 		run(fKeywordPkg, "w42", witnessKeywordPkg, func(f *protoFlags) { f.Hierarchy = true }, "parse:syntax", "")
 		run(fAnyImport, "w43", witnessAnyImport, nil, "link:unresolved", `type "google.protobuf.Any" is not defined`)
 		run(fDottedPkg, "w45", witnessDottedPkg, func(f *protoFlags) { f.PackageName = "a.b" }, "link:unresolved", `type "a.b.enums.W45E" is not defined`)
+		run(fEnumCase, "w46", witnessEnumCase, nil, "link:protodesc", "using open semantics has conflict")
+		run(fNegativeEnum, "w47", witnessNegativeEnum, nil, "link:syntax", "must be zero in proto3, have E_neg = -4")
+		run(fEnumNameDup, "w48", witnessEnumNameDup, nil, "dup-enum-name", `"E_a_b" twice`)
+		run(fJSONName, "w49", witnessJSONName, nil, "link:json-name", `default JSON name "aB"`)
+		run(fPkgMsgClash, "w50", witnessPkgMsgClash, func(f *protoFlags) { f.Hierarchy = true }, "link:duplicate-symbol", `"openconfig.w50.top.Config" (message) is already defined as package`)
+		run(fTypeVsField, "w51", witnessTypeVsField, nil, "link:duplicate-symbol", `"openconfig.w51.C.Config" (message) is already defined as field`)
+		run(fRootList, "w52", witnessRootList, func(f *protoFlags) { f.FakeRoot = true }, "link:unresolved", `type "Vlan" is not defined in scope "openconfig.Device.VlanKey"`)
+		run(fKeyEnumImport, "w53", witnessKeyEnumImport, nil, "link:unresolved", `type "openconfig.enums.W53Te" is not defined`)
+		run(fDecimalImport, "w54", witnessDecimalImport, nil, "link:import", `import "openconfig/enums/enums.proto" not found`)
+		rec.Witness(fRootPkgUnique, func() (bool, string) {
+			root := scratch(t, "c28wit")
+			defer os.RemoveAll(root)
+			os.WriteFile(filepath.Join(root, "w55a.yang"), []byte(witnessRootPkgA), 0o644)
+			os.WriteFile(filepath.Join(root, "w55b.yang"), []byte(witnessRootPkgB), 0o644)
+			f := defaultProtoFlags()
+			f.Compress, f.Hierarchy, f.FakeRoot = true, true, true
+			src := schemaSrc{Label: "witness:w55", Kind: "witness", Dir: root, Roots: []string{filepath.Join(root, "w55a.yang"), filepath.Join(root, "w55b.yang")}}
+			po, log, err := runProtoGen(t, root, src, f)
+			if err != nil {
+				return false, "generator refuses the witness: " + tail(log, 300)
+			}
+			probs, _ := checkWellFormed(po, f)
+			return has(probs, "link:unresolved", `type "Beta" is not defined in scope "openconfig.Device"`)
+		})
 		run(fSingletonEnum, "w44", witnessSingletonEnum, nil, "link:unresolved", `type "UEnum" is not defined`)
 	})
 }
